@@ -646,6 +646,11 @@ func (c *Ctx) nilOnlyBehind(h *types.Func, idx int, guardOf func(fc *FCFG) []cfg
 					}
 				}
 			}
+			if ue, ok := ast.Unparen(rs.Results[idx]).(*ast.UnaryExpr); ok && ue.Op == token.AND {
+				if _, isLit := ast.Unparen(ue.X).(*ast.CompositeLit); isLit {
+					continue // &T{...} is never nil
+				}
+			}
 			// a variable returned only where it was shown non-nil
 			if o := identObj(info, rs.Results[idx]); o != nil {
 				if nn := hfc.nilEdges(o, false); len(nn) > 0 && !hfc.reachableAvoiding(b, nn) {
@@ -658,4 +663,23 @@ func (c *Ctx) nilOnlyBehind(h *types.Func, idx int, guardOf func(fc *FCFG) []cfg
 		}
 	}
 	return nret > 0
+}
+
+// reaches: h is target or has a chain of static calls inside target's package
+// that ends in target.
+func (c *Ctx) reaches(h, target *types.Func) bool {
+	if h == target {
+		return true
+	}
+	key := "reachAll:" + FuncName(target)
+	reach, ok := c.memo[key].(map[*types.Func]bool)
+	if !ok {
+		pk := ""
+		if target.Pkg() != nil {
+			pk = target.Pkg().Path()
+		}
+		reach = c.staticReach(func(p string) bool { return p == pk }, target)
+		c.memo[key] = reach
+	}
+	return reach[h]
 }
